@@ -97,18 +97,32 @@ def engine_section(classic=False, oracle='C04'):
         stats, mism = sec_engine.engine_section(tier, seed, classic=classic)
         fails = []
         if mism:
+            import common
+            import findings
+            known = common.load_findings()
+            prop = {'C04': 'C04', 'C05': 'C05'}.get(oracle, 'C04')
             drv = Driver()
+            n_known = 0
             try:
-                for m in mism[:200]:
+                for m in mism[:400]:
                     f = _engine_oracle(m, drv)
                     if f is None and oracle == 'C05':
                         f = _written_indent_oracle(m)
                     if f is not None:
+                        # failing inputs of a listed known class (K1: a bare hardline inside a flat group) must not use up the quota
+                        # and hide others behind them
+                        if findings.match_known(prop, f, known) is not None or findings.match_known('C04', f, known) is not None:
+                            n_known += 1
+                            if n_known <= 2:
+                                fails.append(f)
+                            continue
                         fails.append(f)
-                        if len(fails) >= 3:
+                        if len(fails) - min(n_known, 2) >= 3:
                             break
             finally:
                 drv.close()
+            # unknown ones first: check.py looks at the first few only
+            fails.sort(key=lambda f: 0 if (findings.match_known(prop, f, known) is None and findings.match_known('C04', f, known) is None) else 1)
         return stats, mism, fails
     return run
 
